@@ -440,12 +440,17 @@ class Script:
             secs.append((".debug_frame", data, None))
         else:
             text_svma, got_svma = base_svma + 0x800, base_svma + 0x280000
+            # every other mixed image does NOT state where .text / .got lie: pointers relative to them (function
+            # addresses, personality routines, LSDAs) are then relative to 0, as gimli's BaseAddresses start out
+            nobases = bool(mixed and rng is not None and ((start >> 12) + len(sec_fdes)) % 2 == 1)
+            if nobases:
+                text_svma, got_svma = 0, 0
             data, offs = build_eh_frame(sec_fdes, self.arch, None, n_cies, eh_svma if pcrel else None,
                                         (eh_svma, rng, text_svma, got_svma) if mixed and rng is not None else None)
             # eh_noaddr: the module does not state where .eh_frame lies (only its bytes): enough when nothing in the CFI
             # is relative to the section itself
             secs.append((".eh_frame", data, None if (eh_noaddr and not pcrel and not (mixed and rng is not None)) else (eh_svma, eh_svma + len(data))))
-            if mixed and rng is not None:
+            if mixed and rng is not None and not nobases:
                 # the address ranges of the sections that relative pointer encodings refer to
                 secs.append((".text", None, (text_svma, text_svma + 0x100000)))
                 secs.append((".got", None, (got_svma, got_svma + 0x100)))
